@@ -170,6 +170,13 @@ def run(ctx):
         if clause.startswith('harness'):
             raise MachineryError('TLC rejected harness-built secret key (%s): %s' % (clause, e['label']))
         ctx.violation(clause, e['label'].split(' cipher=')[0], {'event': {k: v for k, v in e.items() if k not in ('body', 'pt', 'orig_secret')}})
+    # unbounded in the scope depth: RelockedOutsideScopes is an inductive invariant of KeyProtect (Apalache); a non-inductive candidate
+    # must be rejected
+    from .. import tlc as _tlc
+    w1 = _tlc.apalache_inductive('Apa_KeyProtect', ['KeyProtect'], 'Init', 'IndInit', 'IndInv', ctx.work)
+    w2 = _tlc.apalache_inductive('Apa_KeyProtect', ['KeyProtect'], 'Init', 'NotIndInit', 'NotInd', ctx.work, expect_ok=False)
+    ctx.extra['apalache_inductive'] = {'module': 'Apa_KeyProtect', 'invariant': 'IndInv (TypeOK, RelockedOutsideScopes)', 'wall_s': round(w1, 1),
+                                       'non_inductive_candidate_rejected': 'NotInd (depth <= 2)', 'wall_s_negative': round(w2, 1)}
     # whole-session walks of spec/Session.tla (protection scopes x signatures x encryption x keyring), this property's clause family
     from .. import session as _session
     for _b, _step, _clause, _detail in _session.generate(ctx, 'C06.session')[0]:
